@@ -202,7 +202,15 @@ def run_train(case, res, adaptive=False):
                 reg.train_spatially_adaptive(p0, 0.9, -1.0, 10, False, False)
             else:
                 reg.train(p0, l0, l0 + rng.choice([0, 1, 2]) if d < 3 else l0 + 1, False)
-            reg.regularization = lam
+            if rng.random() < 0.5:
+                reg.regularization = lam
+            else:
+                # lambda sweep on one object: the observed training uses a value that differs from the constructor's
+                lam = rng.choice([x for x in (0.0, 1e-4, 1e-2, 0.5, 1.0) if x != lam])
+                reg.regularization = lam
+                cfg["lambda"] = lam
+                cfg["lambda_changed_after_construction"] = True
+                res.count("lambda_changed_after_construction")
             res.count("retrained_object")
             cfg["retrained"] = True
         if adaptive:
